@@ -45,8 +45,9 @@ KeyIdx(k) == CHOOSE i \in 1..Len(KEYS) : KEYS[i] = k
 NoEnt == [present |-> FALSE, v |-> VNil, sym |-> FALSE]
 EmptyEnts == [i \in 1..Len(KEYS) |-> NoEnt]
 
-Obj(kind, b, off, len, cap, sealed) == [kind |-> kind, b |-> b, off |-> off, len |-> len, cap |-> cap, sealed |-> sealed, ents |-> EmptyEnts]
-MapObj(ents) == [kind |-> "map", b |-> 0, off |-> 0, len |-> 0, cap |-> 0, sealed |-> FALSE, ents |-> ents]
+Obj(kind, b, off, len, cap, sealed) == [kind |-> kind, b |-> b, off |-> off, len |-> len, cap |-> cap, sealed |-> sealed, ents |-> EmptyEnts, view |-> FALSE]
+View(kind, b, off, len, sealed) == [Obj(kind, b, off, len, len, sealed) EXCEPT !.view = TRUE]     \* a window handed out by slice / cdr / rest: capacity clamped to its length
+MapObj(ents) == [kind |-> "map", b |-> 0, off |-> 0, len |-> 0, cap |-> 0, sealed |-> FALSE, ents |-> ents, view |-> FALSE]
 
 Cells(s, o) == [i \in 1..o.len |-> s.back[o.b][o.off + i]]
 
@@ -84,13 +85,15 @@ RenderVal(s, v, fuel) ==
   ELSE RenderObj(s, v.n, fuel)
 DEPTH == 4
 RenderAll(s) == [g \in 1..Len(s.glob) |-> RenderVal(s, s.glob[g], DEPTH)]
+\* which variables are clamped views (their cell storage must have no spare capacity)
+ViewFlags(s) == [g \in 1..Len(s.glob) |-> s.glob[g].t = "ref" /\ s.obj[s.glob[g].n].view]
 
 \* --------------------------------------------------------------------- log
 Op(name, kind, ints, x, y, i, j, k, sym) == [op |-> name, kind |-> kind, ints |-> ints, x |-> x, y |-> y, i |-> i, j |-> j, k |-> k, sym |-> sym]
 \* bind the result to the next variable and record the step with the rendering of every variable after it
 Step(s, v, what, mut) ==
   LET s1 == [s EXCEPT !.glob = Append(@, v), !.nops = @ + 1, !.lastmut = mut] IN
-  [s1 EXCEPT !.log = Append(@, [op |-> what, after |-> RenderAll(s1)])]
+  [s1 EXCEPT !.log = Append(@, [op |-> what, after |-> RenderAll(s1), views |-> ViewFlags(s1)])]
 Def(s, id, what)      == Step(s, VRef(id), what, FALSE)
 DefNil(s, what)       == Step(s, VNil, what, FALSE)
 DefVal(s, v, what)    == Step(s, v, what, FALSE)
@@ -133,13 +136,13 @@ OpSlice(kind, x, i, j) ==
   /\ IsSeq(h, x) /\ 0 <= i /\ i <= j /\ j <= o.len
   /\ IF kind = "vec" /\ o.sealed
      THEN h' = Def(Alloc(h, "vec", [k \in 1..(j - i) |-> h.back[o.b][o.off + i + k]], j - i), NewId(h), what)
-     ELSE h' = Def([h EXCEPT !.obj = Append(@, Obj(kind, o.b, o.off + i, j - i, j - i, IF kind = "list" THEN o.sealed ELSE FALSE))], NewId(h), what)
+     ELSE h' = Def([h EXCEPT !.obj = Append(@, View(kind, o.b, o.off + i, j - i, IF kind = "list" THEN o.sealed ELSE FALSE))], NewId(h), what)
 \* (cdr L) lists only; (rest S) any sequence: view of everything but the first element, () when shorter than 2
 OpTail(name, x) ==
   LET o == G(h, x)  what == Op(name, "list", <<>>, x, 0, 0, 0, "", FALSE) IN
   /\ IsSeq(h, x) /\ (name = "cdr" => o.kind = "list")
   /\ IF o.len < 2 THEN h' = DefNil(h, what)
-     ELSE h' = Def([h EXCEPT !.obj = Append(@, Obj("list", o.b, o.off + 1, o.len - 1, o.len - 1, o.sealed))], NewId(h), what)
+     ELSE h' = Def([h EXCEPT !.obj = Append(@, View("list", o.b, o.off + 1, o.len - 1, o.sealed))], NewId(h), what)
 
 \* ------------------------------------------------------ non-mutating builders
 \* (append kind X v...): always fresh storage (with no values too: the repaired behaviour)
